@@ -59,7 +59,7 @@ Theorem program_run_z s p reg s' r c f :
   exists rf cf,
     Steps r rf /\ cur rf = Some cf /\ c_frames cf = [] /\
     c_values cf = match reg with RNone => [] | v => [cv v] end /\
-    r_nss rf = mnss (st_nss s') /\
+    world rf = (mnss (st_nss s'), st_trace s') /\
     do_iter rf = Ok (Return REmpty rf) /\
     forall fuel n x r', execute_do fuel r n = Ok (x, r') ->
       (x = REmpty /\ r' = rf) \/ (x = ROk /\ Steps r r' /\ Steps r' rf).
@@ -80,7 +80,7 @@ Proof.
   { cbn. destruct top as [|x top]; cbn in RR.
     - rewrite RR. reflexivity.
     - destruct RR as (-> & NN & _). destruct reg; try reflexivity. exfalso. apply NN. reflexivity. }
-  split; [rewrite nss_upd_cur; exact N1|]. split; [exact T|].
+  split; [rewrite world_upd_cur; exact N1|]. split; [exact T|].
   intros fuel n x r' H.
   destruct (execute_do_follows r (upd_cur r1 c4) (steps_trans _ _ _ S1 S2) fuel n x r' H) as [(f2 & n2 & _ & _ & E)|Q]; [|right; exact Q].
   destruct f2 as [|f2]; [discriminate E|]. cbn [execute_do] in E.
@@ -126,11 +126,11 @@ Definition root_value (out:bout) : list value :=
 Theorem root_block : forall s reg b out s', zblock s reg b out s' ->
   forall r c f pre, AtM s reg r c f [] [] -> Fresh c [] -> f_code f = pre ++ compile_block b -> f_pos f = length pre -> f_exit f = None ->
   exists rf cf, Steps r rf /\ cur rf = Some cf /\ c_frames cf = [] /\ c_values cf = root_value out /\
-    r_nss rf = mnss (st_nss s') /\ do_iter rf = Ok (Return REmpty rf).
+    world rf = (mnss (st_nss s'), st_trace s') /\ do_iter rf = Ok (Return REmpty rf).
 Proof.
   assert (FIN : forall s reg r c f, AtM s reg r c f [] [] -> f_pos f = length (f_code f) -> f_exit f = None ->
             exists rf cf, Steps r rf /\ cur rf = Some cf /\ c_frames cf = [] /\ c_values cf = root_value (BNorm reg) /\
-              r_nss rf = mnss (st_nss s) /\ do_iter rf = Ok (Return REmpty rf)).
+              world rf = (mnss (st_nss s), st_trace s) /\ do_iter rf = Ok (Return REmpty rf)).
   { intros s reg r c f ((G & EF & (F & N) & B & D) & LB & top & EV & RR) EP EX.
     destruct (complete_root r c f top [] G EF EP EX EV LB) as [S2 T].
     set (c4 := set_values (set_frames c []) (match top with [] => [] | x :: _ => [x] end)) in *.
@@ -139,7 +139,7 @@ Proof.
     { cbn. destruct top as [|x top]; cbn in RR.
       - rewrite RR. reflexivity.
       - destruct RR as (-> & NN & _). destruct reg; try reflexivity. exfalso. apply NN. reflexivity. }
-    split; [rewrite nss_upd_cur; exact N|exact T]. }
+    split; [rewrite world_upd_cur; exact N|exact T]. }
   induction 1 as [s reg|s reg st reg1 s1 HS|s reg st reg1 s1 st2 rest0 out s' HS HB IHb|s reg n l x b s1 s2 out s3 rest0 HN HL HX HB _];
     intros r c f pre A FR EC EP EX.
   - (* nothing left *) apply (FIN s reg r c f A); [|exact EX].
@@ -206,7 +206,7 @@ Proof.
     exists (upd_cur r4 c5), c5.
     split; [eapply steps_trans; [exact S1|eapply steps_trans; [exact S2|eapply steps_trans; [exact S3|eapply steps_trans; [exact S4|exact S5]]]]|].
     destruct G4 as (C4 & _). split; [eapply cur_upd_cur; exact C4|]. split; [reflexivity|]. split; [reflexivity|].
-    split; [rewrite nss_upd_cur; exact N4|exact T].
+    split; [rewrite world_upd_cur; exact N4|exact T].
 Qed.
 
 (* a whole program whose root scope may be left by exitWith *)
@@ -215,7 +215,7 @@ Theorem program_run_exit s p out s' r c f :
   AtM s RNone r c f [] [] -> f_code f = compile_block p -> f_pos f = 0 -> f_exit f = None ->
   exists rf cf,
     Steps r rf /\ cur rf = Some cf /\ c_frames cf = [] /\ c_values cf = root_value out /\
-    r_nss rf = mnss (st_nss s') /\
+    world rf = (mnss (st_nss s'), st_trace s') /\
     do_iter rf = Ok (Return REmpty rf) /\
     forall fuel n x r', execute_do fuel r n = Ok (x, r') ->
       (x = REmpty /\ r' = rf) \/ (x = ROk /\ Steps r r' /\ Steps r' rf).
@@ -233,4 +233,21 @@ Proof.
   destruct n2 as [|n2].
   - inversion E; subst. right. split; [reflexivity|]. split; [exact S1|apply StepsRefl].
   - rewrite T in E. cbn [bindr] in E. inversion E; subst. left. split; reflexivity.
+Qed.
+
+(* what the property observes - "the sequence of statements executed", seen through the markers a program logs: the
+   markers the machine has logged when the program is finished are those of the reference run, in the same order *)
+Theorem program_trace s p reg s' r c f :
+  zprog s RNone p reg s' ->
+  AtM s RNone r c f [] [] -> f_code f = compile_block p -> f_pos f = 0 -> f_exit f = None ->
+  (exists f0, forall fl, f0 <= fl -> st_trace (snd (eval_block fl s p RNone)) = st_trace s') /\
+  exists rf, Steps r rf /\ do_iter rf = Ok (Return REmpty rf) /\ marks (r_out rf) = st_trace s' /\
+             forall fuel n x r', execute_do fuel r n = Ok (x, r') -> x = REmpty -> marks (r_out r') = st_trace s'.
+Proof.
+  intros HP A EC EP EX. split.
+  - destruct (zprog_ref s RNone p reg s' HP) as [f0 H]. exists f0. intros fl L. rewrite (H fl L). reflexivity.
+  - destruct (program_run_z s p reg s' r c f HP A EC EP EX) as (rf & cf & S & _ & _ & _ & W & T & FO).
+    exists rf. split; [exact S|]. split; [exact T|]. split; [exact (world_marks _ _ _ W)|].
+    intros fuel n x r' H XE. destruct (FO fuel n x r' H) as [[_ ->]|[XO _]]; [exact (world_marks _ _ _ W)|].
+    rewrite XE in XO. discriminate XO.
 Qed.
